@@ -37,7 +37,7 @@ GUARD = "CHJJ_LCDB_VERIF"
 
 CBMC_BASE = ["--unwinding-assertions", "--pointer-overflow-check",
              "--signed-overflow-check", "--undefined-shift-check",
-             "--drop-unused-functions", "--json-ui",
+             "--drop-unused-functions", "--no-malloc-may-fail", "--json-ui",
              "--verbosity", "8"]
 # --conversion-check is removed per obligation where the real code narrows on
 # purpose (see Obl.no_conversion_check)
@@ -362,7 +362,8 @@ def native_replay(obl, vals, odir, label):
         f.write("\n".join(str(v) for v in vals) + "\n")
     cflags = ["-std=gnu99", "-D_GNU_SOURCE", "-DLDB_PTHREAD", "-DNDEBUG", "-DVP_REPLAY",
               "-g", "-O0", "-fsanitize=address,undefined", "-fno-sanitize-recover=undefined",
-              "-fno-omit-frame-pointer", "-w",
+              "-fno-omit-frame-pointer", "-w", "-ffunction-sections", "-fdata-sections",
+              "-Wl,--gc-sections", "-Wl,--unresolved-symbols=ignore-all", "-no-pie",
               "-I" + os.path.join(REPO, "include"), "-I" + SRC, "-I" + os.path.join(SRC, "util"),
               "-I" + os.path.join(SRC, "table"), "-I" + KIT, "-I" + HARN]
     for k, v in sorted(list(obl.defs.items()) + list(obl.real_defs.items())):
